@@ -114,6 +114,22 @@ def nucHistV : P String := do
     | .error => "E"
   pure (" ".intercalate (outs.map sh))
 
+/-- ic.barray f gamma Rmin dGs → the critical radii of `nucleationBarrier(array)` (bulk / dislocation), one per condition -/
+def barrayV : P String := do
+  let f ← flt; let g ← flt; let rmin ← flt; let ds ← flts
+  pure (flist (barrierArray f g rmin ds))
+
+def parP : P (PhasePar Float) := do
+  let vm ← flt; let e ← flt; let f ← flt; let g ← flt
+  pure ⟨vm, e, f, g⟩
+
+/-- ic.gtargs p params(vm e f gamma)×k bounds → the Gibbs-Thomson energies handed to the growth law for phase `p`
+(`E` when the phase does not exist) -/
+def gtArgsV : P String := do
+  let p ← nat; let ps ← lst parP; let bs ← flts
+  let out := gibbsArgs ps some p bs
+  if out.all Option.isSome then pure (flist (out.filterMap id)) else pure "E"
+
 def handle (verb : String) : Option (P String) :=
   match verb with
   | "gen.gt" => some gt
@@ -128,6 +144,8 @@ def handle (verb : String) : Option (P String) :=
   | "gen.extra" => some extraV
   | "df.order" => some dfOrderV
   | "nuc.hist" => some nucHistV
+  | "ic.barray" => some barrayV
+  | "ic.gtargs" => some gtArgsV
   | _ => none
 
 end KawinV.Drv.C12
